@@ -35,6 +35,9 @@ B_READER = 'pack_size <= 2000000; any offset/length inside; ops in {read(n), tel
 B_HANDLES = 'sp,s0,s1 in [1,70000]; first query in {none,has,list,meta,get}; pack, clean symbolic; second query in {has,get,meta,list}'
 
 
+from harness.slices import slices_for  # noqa: E402
+
+
 def cell(name, module, function, timeout, **kw):
     return dict(name=name, module=module, function=function, timeout=timeout, **kw)
 
@@ -106,16 +109,16 @@ DELETE_REACH = [cell('delete_reach', 'harness.h_delete', 'delete_reach', (120, 3
 B_CRASH_Q = 'h0 in [0,1]; sp,s1 in [1,100]; s0 in [1,70000]; target in [1,70200]; crash/fault index in the slice named by the cell'
 
 
-def crash_cells(kind, ops, slices=(1, 13, 25, 37)):
+def crash_cells(kind, ops):
     """quick: q_* cells (only s0 straddles the 64 KiB chunk size); thorough: additionally the wide cells."""
     out = []
     for prefix, bounds, thorough_only in (('q_', B_CRASH_Q, False), ('', B_CRASH, True)):
         for op in ops:
-            for lo in slices:
+            for lo, hi in slices_for(kind, op):
                 name = '%s%s_%s_%d' % (prefix, kind, op, lo)
                 out.append(
-                    cell(name, 'harness.g_crash', name, (300, 1200), thorough_only=thorough_only,
-                         bounds=bounds + '; op=%s; index slice [%d,%d]' % (op, lo, lo + 11 if lo < 37 else 50),
+                    cell(name, 'harness.g_crash', name, (480 if kind == 'fault' else 300, 1500), thorough_only=thorough_only,
+                         bounds=bounds + '; op=%s; index slice [%d,%d]' % (op, lo, hi),
                          samples=[dict(S_CRASH, at=lo + 2)], replay_sweep={'at': SWEEP})
                 )
             out.append(cell(prefix + 'bound_' + op, 'harness.g_crash', prefix + 'bound_' + op, (300, 900), samples=[S_CRASH],
@@ -262,10 +265,25 @@ CHECKS = {
             cell('chunk_spec', 'harness.h_merge', 'chunk_spec', (100, 300), bounds='list len <= 6, size in [1,4]',
                  samples=[dict(xs=[1, 2, 3, 4, 5], size=2)], replay_mode='model'),
             cell('where_reach', 'harness.h_merge', 'where_reach', (100, 300), bounds='as where_spec', expect='REFUTED'),
-        ],
-        functions=['utils.detect_where_sorted', 'utils.merge_sorted', 'utils.chunk_iterator'],
-        assumptions=['only the sorted-merge helper clause of C16 is decided here (pure functions, no environment model: '
-                     'model and real world coincide); the bulk-API clause (thresholds, paging) is not covered'],
+            cell('where_spec4', 'harness.h_merge', 'where_spec4', (900, 1800), bounds='lists len <= 4', thorough_only=True,
+                 samples=[dict(left=[1, 3, 5, 7], right=[0, 3, 9, 11])], replay_mode='model'),
+            cell('merge_spec4', 'harness.h_merge', 'merge_spec4', (900, 1800), bounds='lists len <= 4', thorough_only=True,
+                 samples=[dict(left=[1, 3, 5, 7], right=[0, 3, 9, 11])], replay_mode='model'),
+        ] + [
+            cell('bulk_check_v%d' % v, 'harness.g_bulk', 'bulk_check_v%d' % v, (400, 1200),
+                 bounds='obj0 loose, obj1 loose+packed, obj2 packed, one absent key; request of 0..3 picks (any order, '
+                 'repeats); _IN_SQL_MAX_LENGTH in [1,2]; _MAX_CHUNK_ITERATE_LENGTH in [0,3]; view %d of {has_objects, '
+                 'get_objects_content, get_objects_meta skip, get_objects_meta no-skip}' % v,
+                 samples=[dict(s0=5, s1=7, s2=9, r0=3, r1=1, r2=1, nreq=3, in_max=1, chunk_max=1),
+                          dict(s0=5, s1=7, s2=9, r0=0, r1=2, r2=3, nreq=3, in_max=2, chunk_max=3)])
+            for v in range(4)
+        ] + [cell('bulk_reach_v1', 'harness.g_bulk', 'bulk_reach_v1', (120, 300), expect='REFUTED')],
+        functions=['utils.detect_where_sorted', 'utils.merge_sorted', 'utils.chunk_iterator',
+                   'Container._get_objects_stream_meta_generator (both lookup strategies)', 'Container.has_objects',
+                   'Container.get_objects_content', 'Container.get_objects_meta'],
+        assumptions=['helper clause: pure functions, model and real world coincide (replay = the same call); bulk clause: the '
+                     'two strategy thresholds are symbolic small integers set on the container instance, the 1000-row paging '
+                     'literal and the bulk packing/cleaning/import operations are not covered'],
     ),
     'C17': dict(
         cells=crash_cells('fault', ALL_OPS),
@@ -275,9 +293,10 @@ CHECKS = {
                      'the handle is closed, stale lock files removed and the operation rerun on a new handle'],
     ),
     'C18': dict(
-        cells=PACK_INV + DIRECT_INV + LOOSE_INV,
+        cells=PACK_INV + PACK_VIEWS + DIRECT_INV + LOOSE_INV,
         functions=F_WRITE + ['Container.close'],
         assumptions=['descriptor census of the model descriptor table (files, directory descriptors, fcntl duplicates): '
-                     'no growth over an operation, zero after close(); the memory / chunking clause is not decided'],
+                     'no growth over an operation, zero after close(); at most one pack-or-loose file open at any time during the bulk '
+                     'and single reads of the views cells (model descriptor table high-water mark); memory / chunking clause not decided'],
     ),
 }
